@@ -798,10 +798,10 @@ class Facts:
         # the way to that return is what the caller's branch rests on
         threaded = n.extra.get('ret_class') is not None or \
             n.extra.get('null_ret') is not None
-        out = frozenset(
-            a for a in st if tag not in a[1] or threaded or
-            (kept and all(kp in kept for kp in key_paths(a[1])
-                          if tag in kp))) | frozenset(add)
+        # what held at every return of the helper still holds after the
+        # call (its locals are not touched again until it is re-entered,
+        # where its own assignments kill what they change)
+        out = frozenset(st) | frozenset(add)
         # a threaded call (the caller branches on the result): this
         # continuation is the one on which the call was true / false
         cls = n.extra.get('ret_class')
